@@ -89,7 +89,7 @@ impl<S: State> GeometryVariables<S> {
 
     /// Look up the variables for a given arc.
     pub fn arc_ids(&self, arc_id: usize) -> ArcVars {
-        let start_of_arcs = VARS_PER_POINT * self.num_points;
+        let start_of_arcs = VARS_PER_POINT * self.num_points + VARS_PER_CIRCLE * self.num_circles;
         let ax = self.variables[start_of_arcs + VARS_PER_ARC * arc_id].0;
         let ay = self.variables[start_of_arcs + VARS_PER_ARC * arc_id + 1].0;
         let start = PointVars { x: ax, y: ay };
